@@ -29,9 +29,15 @@ Accepted(e) ==
   /\ IF HasHole(e.elab) THEN Bad(<<"C01", "accepted with an unfilled hole", "holes_opened", e.holes_opened>>) ELSE TRUE
   \* the clauses below are judged independently: one observation may break several statements (a wrong step that ends stuck is
   \* a C02 and a C01 observation), and every check filters by its own tag
-  /\ LET so == IF Len(e.steps) > 0 THEN StepsOK(e.elab, e.steps, 1, ~IsNone(src) /\ HasHole(src)) ELSE [ok |-> TRUE, cur |-> e.end] IN
+  \* Where the source had holes the elaborated term holds solved hole cells; the evaluator spends steps of its own on replacing
+  \* them by their solutions, and a definition that is a solved hole is not yet a value for it while the recorded term (solutions
+  \* filled in) shows a value: the order and the number of steps then differ from the specification's although every result
+  \* agrees.  Step-by-step comparison is therefore made for programs without holes only; programs with holes are judged on
+  \* their outcome (stuck / value, the big-step semantics, the type of the value) below.
+  /\ LET holey == ~IsNone(src) /\ HasHole(src)
+         so == IF Len(e.steps) > 0 /\ ~holey THEN StepsOK(e.elab, e.steps, 1, FALSE) ELSE [ok |-> TRUE, cur |-> e.end] IN
      IF ~so.ok THEN Bad(<<"C02", "evaluation step differs from the semantics", so.at>>)
-     ELSE IF e.endk # "fuel" /\ Len(e.steps) = 0 /\ e.nsteps > 0 /\ e.nsteps <= 400 /\ ~Ident(StepN(e.elab, e.nsteps), e.end) THEN Bad(<<"C02", "final term differs from the semantics">>)
+     ELSE IF ~holey /\ e.endk # "fuel" /\ Len(e.steps) = 0 /\ e.nsteps > 0 /\ e.nsteps <= 400 /\ ~Ident(StepN(e.elab, e.nsteps), e.end) THEN Bad(<<"C02", "final term differs from the semantics">>)
      ELSE TRUE
   /\ IF e.endk = "stuck" THEN
          (IF Step(e.end).r = "step" THEN Bad(<<"C01", "stuck although the semantics continues (a definition that is a value is available to its whole group)", "holes_opened", e.holes_opened>>)
